@@ -38,7 +38,7 @@ type svcDef struct {
 	blacklist string // full ids, comma separated
 }
 
-var worldChains = []string{"c1", "c2", "c3"}
+var worldChains = []string{"c1", "c2", "c3", "c4"}
 var worldServices = []svcDef{
 	{"c1", "s1", 1, ""},
 	{"c1", "s2", 1, ""},
@@ -46,6 +46,7 @@ var worldServices = []svcDef{
 	{"c2", "s2", 0, ""},
 	{"c3", "s1", 1, "1356:c1:s2"},
 	{"c2", "s3", 1, ""},
+	{"c4", "s1", 1, ""},
 }
 var worldUsers = []string{"u0", "u1", "u2", "u3"}
 
@@ -225,7 +226,19 @@ func (e *execEngine) step(ws []string) string {
 			if err := copyDir(templateDir, d); err != nil {
 				fail("copy: %v", err)
 			}
-			n, err := openNode(d, mkConfig(o["audit"] == "1", pt), price)
+			cfg := mkConfig(o["audit"] == "1", pt)
+			if o["mix"] == "1" {
+				// replicas of one network with different local tuning: the other proof-verification mode on odd replicas
+				// (the parallel executor type is not registered in this build: "type parallel is unsupported")
+				if i%2 == 1 {
+					if pt == "parallel" {
+						cfg.Executor.ProofType = "serial"
+					} else {
+						cfg.Executor.ProofType = "parallel"
+					}
+				}
+			}
+			n, err := openNode(d, cfg, price)
 			if err != nil {
 				fail("open: %v", err)
 			}
@@ -662,7 +675,7 @@ func (e *execEngine) query(ws []string) string {
 		return b.String()
 	case "bals":
 		var ps []string
-		names := append(append([]string{}, worldUsers...), "ca1", "ca2", "ca3", "adm0", "adm1", "adm2", "adm3")
+		names := append(append([]string{}, worldUsers...), "ca1", "ca2", "ca3", "ca4", "adm0", "adm1", "adm2", "adm3")
 		for _, a := range names {
 			ps = append(ps, a+"="+e.query([]string{"bal", a}))
 		}
@@ -684,6 +697,30 @@ func (e *execEngine) query(ws []string) string {
 		return fmt.Sprintf("%s ordered=%d", s.Status, b2i(s.Ordered))
 	case "height":
 		return fmt.Sprint(n.ldg.GetChainMeta().Height)
+	case "dumpdiff":
+		// implementation-only: storage keys on which replica i differs from replica 0
+		base := strings.Fields(n.dumpState(e.admInit))
+		var out []string
+		for i := 1; i < len(e.nodes); i++ {
+			other := map[string]bool{}
+			for _, x := range strings.Fields(e.nodes[i].dumpState(e.admInit)) {
+				other[x] = true
+			}
+			for _, x := range base {
+				if !other[x] {
+					out = append(out, fmt.Sprintf("r%d:%s", i, x))
+					if os.Getenv("VERIF_STACK") != "" {
+						parts := strings.SplitN(strings.SplitN(x, "=", 2)[0], "/", 2)
+						if c, ok := contractAddrs[parts[0]]; ok && len(parts) == 2 {
+							_, v0 := n.ldg.Copy().GetState(c.Address(), []byte(parts[1]))
+							_, vi := e.nodes[i].ldg.Copy().GetState(c.Address(), []byte(parts[1]))
+							fmt.Fprintf(os.Stderr, "DIFF %s r0=%q r%d=%q\n", x, string(v0), i, string(vi))
+						}
+					}
+				}
+			}
+		}
+		return "- ## " + strings.Join(out, " ")
 	case "dump":
 		// implementation-only observation: every committed storage key of every built-in contract (hashed values),
 		// balances and nonces of all named accounts.  The model does not predict it ("-").
@@ -722,7 +759,7 @@ func (n *node) dumpState(admInit map[string]*big.Int) string {
 			parts = append(parts, fmt.Sprintf("%s/%s=%x", name, strings.ReplaceAll(k, " ", "_"), h[:4]))
 		}
 	}
-	accts := append(append([]string{}, worldUsers...), "ca1", "ca2", "ca3", "adm0", "adm1", "adm2", "adm3", "viewer")
+	accts := append(append([]string{}, worldUsers...), "ca1", "ca2", "ca3", "ca4", "adm0", "adm1", "adm2", "adm3", "viewer")
 	led := n.ldg.Copy()
 	for _, a := range accts {
 		parts = append(parts, fmt.Sprintf("bal/%s=%s", a, led.GetBalance(acct(a).addr).String()))
